@@ -17,9 +17,11 @@ G: every transition is printed as a program with the level-A prediction after ev
    records that reached the emitter (kind, trace_id, span_id, span_parent) and
    SpanCtxt::current on every thread with the prediction, ids up to a bijection.
 """
+import vlib
 from checks import span_common
 
 ACTIONS = ["Begin", "New", "SEnter", "End", "SExit", "Event", "Current", "SPanic"]
+CANCEL = ["Cancel"]
 TASKS = ["SSpawn", "SPoll", "SYield", "SComplete"]
 LAZY = ["Lazy", "PollLazy"]
 
@@ -35,7 +37,7 @@ def forms_arg(r, cfg):
 def run(ctx):
     if ctx.quick:
         configs = [
-            {"cfg": "Span_quick.cfg", "workers": 4, "actions": ACTIONS + TASKS + LAZY},
+            {"cfg": "Span_quick.cfg", "workers": 4, "actions": ACTIONS + TASKS + LAZY + CANCEL},
             {"cfg": "Span_quick2.cfg", "workers": 4, "actions": ACTIONS + ["Incoming"]},
             {"cfg": "Span_quick3.cfg", "workers": 4, "actions": ACTIONS + ["Incoming"]},
         ]
@@ -49,9 +51,18 @@ def run(ctx):
             {"cfg": "Span_thorough_r3.cfg", "workers": 6, "actions": ACTIONS + TASKS + LAZY + ["Incoming"]},
             {"cfg": "Span_thorough_sim.cfg", "workers": 4, "simulate": (20000, 18)},
         ]
+    if not ctx.quick and ctx.replay_case() is None:
+        # finding F29 at model level: the model of the code as it is must fail CancelCarriesOwnIds
+        r = ctx.tlc("MCSpan", "Span_f29.cfg", workers=4, count=False, expect_violation=True,
+                    label="Span_f29")
+        if r.violated != "CancelCarriesOwnIds":
+            raise vlib.ToolError("Span_f29.cfg: expected CancelCarriesOwnIds to be violated by the "
+                                 "model of the code as it is, got %s" % r.violated)
+        ctx.cov["f29_model"] = {"cfg": "Span_f29.cfg", "violated": r.violated}
     span_common.run_configs(ctx, "MCSpan", "c04_span", configs, ACTIONS, "C04",
                             harness_args=forms_arg)
     ctx.assumptions += [
+        "cancellation: a started, suspended async span dropped in its parent's frame, elsewhere in its own trace tree, or where no span is ambient (a span cancelled inside an unrelated trace is two trees: left out); level A: one event with its own id, its parent, its tree's trace id; the code uses the ambient ids there (open finding F29, classified by its own signature; any other wrong id or event count on that path is a violation)",
         "context forms (value, &C, Option<C>, Box<C>, Arc<C>, Box<dyn ErasedCtxt + Send + Sync>, the ambient runtime of emit::setup()..init_slot): every program runs through one form, the program number rotates through them; not every program through every form",
         "the random source yields no zero and no repeat (the statement's condition); ids are compared up to a bijection, so the draw order is free",
         "span guards are moved into the closure / async block of their frame, as the documentation of SpanGuard::new requires",
